@@ -35,6 +35,24 @@ CHECKS = {
  "C20": dict(engine="modelsim", design="5/C20", category="exploration",
    text="Seeded TOML configurations from the documented grammar (0..600 entries, all protocols and knobs, two layouts, up to three 8-bit id wraps) go through the real loader -> generate_config_messages -> fresh ConfigState; oracles: every message accepted, state equals an independent reading of the same toml::Table with documented defaults, reload idempotent (equal state, empty diffs), and 0..4 single-mutation constraint-violating neighbours per plan are rejected at load time.",
    technique="generated-configuration differential against an independent TOML reading, with seeded hash order (the scatter/back-pressure clause needs the hub tier)", note=MS),
+ "C03": dict(engine="netsim", design="5/C03", category="exploration",
+   text="Black-box differential with three readers on the real worker: grammar-generated H1 request streams (valid seeds + 104 mutation operators over Content-Length, Transfer-Encoding, chunk syntax, target/Host, request line, header block, connection tricks, plus the repo's catalogued attack strings) are delivered twice under different seeded segmentations/schedules over kept-alive, reused backend connections; a strict RFC 9112 reference reader of the client's bytes, a no-recovery strict reader of every backend connection's raw bytes and the client-visible statuses must agree (every backend stream strict, backend requests = prefix of what the client sent up to the reject point, no foreign header line, malformed input answered 400, same outcome under both segmentations).",
+   technique="deterministic simulation (real worker, scripted peers) with differential strict-reader oracle and metamorphic segmentation check"),
+ "C09": dict(engine="hubsim", design="5/C09", category="exploration",
+   text="The real master loop CommandHub::run as a coroutine of the simulator with 1-4 scripted workers (ok, failure, processing-then-ok, silent past worker_timeout, channel closed before/after answering, duplicate, late, unknown id, back-pressure) and 1-4 concurrent scripted CLI clients on the real unix command socket (mutating, query, load-state, save-state, stop, status verbs), 217 enumerated plans plus seeded ones; history oracle per client request: exactly one final answer, OK only if every worker alive at dispatch acknowledged in time, answer within worker_timeout in virtual time, right client, dead workers killed and reported, hub never panics and still serves a probe.",
+   technique="deterministic simulation of the real master event loop with scripted faulty workers and virtual worker_timeout; history oracle with global sequence numbers"),
+ "C11": dict(engine="chansim", design="5/C11", category="fault_enumeration",
+   text="Two real nonblocking Channels over real unix socket pairs with a seeded relay moving k bytes per step in both directions, driven through the real owners (WorkerSession::ready, the hub's extract_messages, a transcription of the worker loop) and through raw API call orders; every split position of short sequences, every malformed-frame kind at every position for every owner and EOF at every offset are enumerated; oracles: exactly-once in-order delivery against an independent deframer, byte conservation at the kernel (FIONREAD), capacities never above max_buffer_size, Err never panic for malformed frames, and no wedge (after a malformed frame valid frames are delivered or the owner closes).",
+   technique="deterministic simulation of both channel endpoints with a byte-granular relay; exhaustive split/fault-position enumeration for short sequences plus seeded search"),
+ "C12": dict(engine="modelsim", design="5/C12", category="exploration",
+   text="Seeded histories (add/remove/re-add, health results, connect outcomes, virtual-time advances across back-off windows, connection open/close, six load-balancing policies, weights, backups, sticky ids) against one real BackendMap per plan under the virtual clock and seeded entropy, with an independent per-backend reference model: every selection in the allowed set (eligible primaries, else backups, else documented fail-open), sticky wins iff its backend qualifies, HRW/Maglev key affinity while the eligible set is unchanged, counters back to zero, retirement exactly when drained.",
+   technique="operation-history simulation under a virtual clock against an executable reference model", note=MS),
+ "C13": dict(engine="netsim", design="5/C13", category="exploration",
+   text="Real worker with 2-4 keep-alive clients of different simulated IPv4/IPv6 addresses (direct or behind PROXY-v2), exact-byte header lists (duplicates, case and whitespace variants, spoofed X-Forwarded-*/Forwarded/X-Real-IP/request-id/correlation/sticky cookie, Connection-named fields, chunked trailers) under listener knobs (elide/send X-Real-IP, custom correlation name, sticky name, public address, frontend header edits); an independent model of the documented transformation judges every request each backend received (multiset and order of end-to-end fields, truthful last XFF/Forwarded element and X-Real-IP for *that* connection, one request id, one correlation id equal to the response's, cross-client isolation) and every response the clients received; 360 systematic short-write plans.",
+   technique="deterministic simulation (real worker, scripted peers, simulated peer addresses) with an independent header-transformation model"),
+ "C14": dict(engine="netsim", design="5/C14", category="exploration",
+   text="Real worker with an HTTPS and an HTTP listener; the scripted H2 peers (client over real TLS via rustls, h2c backend) use their own frame codec and HPACK encoder and keep an independent ledger of the windows and limits they granted sozu (SETTINGS counted from the position of sozu's ACK, grants from the byte they hit the wire); seeded peer SETTINGS over the legal ranges, mid-connection changes that shrink windows below in-flight data, WINDOW_UPDATE schedules, HPACK styles, 1-5 concurrent streams; oracles: no ledger violation (stream/connection window, max frame size, concurrent streams, stream ids, HPACK table), every body complete and byte-exact, bounded virtual time.",
+   technique="deterministic simulation with byte-accounting HTTP/2 peers (independent codec and flow-control ledger) over real TLS"),
  "C16": dict(engine="netsim", design="5/C16", category="exploration",
    text="Seeded deterministic simulation of the real worker under mixes of session outcomes and connection storms with max_connections 2..64: the hooks count the client sockets sozu is serving at every step (never above max_connections); after all peers left and virtual time passed every timeout, no client/backend socket remains open, QueryMetrics gauges equal their pre-traffic baseline and a fresh probe is served.",
    technique="deterministic simulation with fault injection; step-wise admission invariant from the syscall seam; baseline-vs-quiescence footprint comparison"),
@@ -70,6 +88,8 @@ m = {
            "baseline_off_cmd": "cd /repo && cargo test --workspace --no-fail-fast --offline",
            "source_commits": [], "add_only": True},
  "engines": [
+   {"name": "hubsim", "path": "/verif/sim/src/hubsim.rs", "serves_properties": [p for p in ids if CHECKS.get(p, {}).get("engine") == "hubsim"], "kind_free_text": "the real master loop sozu::command::server::CommandHub::run as a coroutine of the simulator; scripted workers on the real worker channels, scripted CLI clients on the real unix command socket, kill() interposed"},
+   {"name": "chansim", "path": "/verif/sim/src/props/c11.rs", "serves_properties": [p for p in ids if CHECKS.get(p, {}).get("engine") == "chansim"], "kind_free_text": "two real Channel endpoints over real unix socket pairs with a seeded byte-granular relay; real owners (WorkerSession, hub session loop)"},
    {"name": "modelsim", "path": "/verif/sim/src/props", "serves_properties": [p for p in ids if CHECKS.get(p, {}).get("engine") == "modelsim"], "kind_free_text": "seeded operation histories against public stateful components of sozu under the same virtual clock / seeded entropy hooks, each with a small executable reference model"},
    {"name": "netsim", "path": "/verif/sim/src/netsim.rs", "serves_properties": [p for p in ids if CHECKS.get(p, {}).get("engine") == "netsim"], "kind_free_text": "one real sozu worker (Server::run) as a coroutine of a seeded discrete-event simulator behind interposed libc symbols (clock, entropy, epoll_wait, connect/bind/accept, data syscalls); scripted clients, backends and master"},
  ],
